@@ -2,7 +2,7 @@
 C01 — property theorems (statements, short proofs from the lemmas, non-vacuity examples).
 Helper lemmas: Proofs.lean (arithmetic, decision), Run.lean (histories + ghosts), Window.lean (rolling window).
 -/
-import GoZero.C01.RunWindow
+import GoZero.C01.Conc
 namespace GoZero.C01
 
 /-! ## 1. admission law -/
@@ -200,5 +200,52 @@ theorem logBucket_balanced (t0 : Nat) (log : List (Nat × Mark)) (j : Nat) :
 /-- non-vacuity: three failures at t0 = 5, 10 s − 1 ns later they are still visible, 1 ns later they are gone -/
 example : ((((Sys.init 5).run (List.replicate 3 (Op.resolve .fail))).b.history (5 + 9999999999)).total = 3
     ∧ (((Sys.init 5).run (List.replicate 3 (Op.resolve .fail))).b.history (5 + 10000000000)).total = 0) := by decide
+
+/-! ## 6. every concurrent interleaving (any number of goroutines, any schedule, clock ticks anywhere) -/
+
+/-- a call that ends in a rejection took a snapshot of the window on which the non-accepted calls exceed
+5 + 10 % of the accepted ones, and it was not due for the forced probe when it read `lastPass` and the clock. -/
+theorem conc_reject_only_if_over_threshold (env : Env) (t0 : Nat) (c : Cfg) (h : Reach env t0 c) (t : Nat)
+    (hv : c.verdict t = some .reject) :
+    overThreshold (c.snap t) ∧ ¬ (c.lp t > 0 ∧ c.tnow t - c.lp t > forcePassNs) :=
+  (tinv_reach env t0 c h t).2.1 hv
+
+/-- under any schedule a finished call has recorded exactly one mark: a drop iff it was rejected, otherwise
+success / failure by the acceptability predicate (panic = failure); an unfinished one has recorded nothing. -/
+theorem conc_accounting (env : Env) (t0 : Nat) (c : Cfg) (h : Reach env t0 c) (t : Nat) :
+    (c.pc t = 8 → (c.verdict t = some .reject ∧ c.marks t = [.drop]) ∨
+                  (c.verdict t = some .pass ∧ c.marks t = [admitMark (env.entry t) (env.outcome t)]))
+    ∧ (c.pc t < 8 → c.marks t = []) := by
+  have hi := tinv_reach env t0 c h t
+  refine ⟨hi.2.2.2.2.2.2.2.2, ?_⟩
+  intro hlt
+  have h6 := hi.2.2.2.2.2.1
+  have h7 := hi.2.2.2.2.2.2.1
+  have h8 := hi.2.2.2.2.2.2.2.1
+  by_cases a : c.pc t < 6
+  · exact (h6 a).1
+  · by_cases b : c.pc t = 6
+    · exact (h7 b).1
+    · exact (h8 (by omega)).1
+
+/-- `admitMark` is the mark of the sequential decision table -/
+theorem admitMark_table (e : Entry) (o : Outcome) : marksOf (doReqEvents .pass e o) = [admitMark e o] := by
+  cases e with | mk f c => cases f <;> cases c <;> cases o <;> decide
+
+/-- under any schedule the window still is the log of the preceding 40 aligned buckets -/
+theorem conc_window_is_log (env : Env) (t0 : Nat) (c : Cfg) (h : Reach env t0 c) (now : Nat) (hnow : c.clock ≤ now) :
+    c.rw.visible now =
+      (List.range (40 - c.rw.span now)).map fun i => Lget (logBucket t0 c.log) (bucketIdx t0 now) (39 - i) := by
+  obtain ⟨cur, hr, hl, ht⟩ := wininv_reach env t0 c h
+  have hv := visible_spec _ t0 cur _ hr now (Nat.le_trans hl hnow)
+  have hlt := hr.lt
+  have hidx : bucketIdx t0 now = cur + (now - c.rw.lastTime) / 250000000 := by
+    simp only [] at hlt hl
+    unfold bucketIdx intervalNs; omega
+  rw [hv, hidx]
+
+/-- non-vacuity: two goroutines interleave — thread 0 takes its snapshot, 7 ns pass, thread 1 takes its own -/
+example : ∃ c, Reach ⟨fun _ => 0, fun _ => ⟨false, false⟩, fun _ => .errU⟩ 3 c ∧ c.pc 0 = 1 ∧ c.pc 1 = 1 ∧ c.clock = 10 :=
+  ⟨_, Reach.step _ _ 1 (Reach.tick _ 7 (Reach.step _ _ 0 Reach.init rfl)) rfl, rfl, rfl, rfl⟩
 
 end GoZero.C01
